@@ -23,7 +23,7 @@ var vfT *testing.T // for golden runs started from generators
 func init() {
 	vfRegister(&vfProp{
 		id:        "C04",
-		classes:   []string{"single", "multi", "single", "multi", "wrerr", "golden", "single", "multi", "single", "multi", "wrerr", "quickclose"},
+		classes:   []string{"single", "multi", "single", "multi", "wrerr", "golden", "single", "multi", "single", "multi", "wrerr", "quickclose", "userclose"},
 		gen:       c04Gen,
 		exec:      c04Exec,
 		enumerate: c04Enumerate,
@@ -144,6 +144,15 @@ func c04Gen(class string, seed uint64, tier string) *vfScenario {
 		// a session that is closed the moment it has been established
 		return &vfScenario{Cfg: map[string]int64{"quickclose": 1, "sites": int64(vfRng(seed, 3).IntN(4))}}
 	}
+	if class == "userclose" {
+		// the connection is not lost: the application closes the Client from one goroutine while calls of others are
+		// in flight (the peer then sees the end of the stream and hangs up, cleanly and on a frame boundary)
+		rng := vfRng(seed, 4)
+		sc := c04Base([]string{"single", "multi"}[rng.IntN(2)], seed)
+		sc.Cfg["userclose"] = 1
+		sc.Cfg["sites"] = sc.Cfg["sites"] &^ (8 | 128 | 256) // (the id-keyed sites stay off: programs may be multi-chunk)
+		return sc
+	}
 	sc := c04Base(class, seed)
 	if class == "golden" {
 		return sc
@@ -248,9 +257,84 @@ func c04QuickClose(r *vfRun) {
 	r.res.NonTrivial = true
 }
 
+// c04UserClose: Client.Close from one task while the calls of the others are in flight. Every call returns (a result or
+// an error), Close and Wait return, and afterwards none of the package's goroutines is left.
+func c04UserClose(r *vfRun) {
+	sc, sim := r.sc, r.sim
+	srv := vfNewScriptServer(sim)
+	tag := sc.Seed
+	srv.files["/a"] = vfFill(tag^1, 0, int(sc.cfg("sizeA", 10)))
+	srv.addDir("/dir", "e1", "e2", "e3", "e4", "e5")
+	vfClientSites(sim, sc.cfg("sites", 7))
+	P, M := int(sc.cfg("P", 4)), int(sc.cfg("M", 2))
+	c, err := vfStartClient(sim, srv.c2s, srv.s2c, MaxPacketUnchecked(P), MaxConcurrentRequestsPerFile(M),
+		UseConcurrentReads(sc.cfg("concr", 1) != 0), UseConcurrentWrites(sc.cfg("concw", 0) != 0), UseFstat(sc.cfg("fstat", 0) != 0))
+	if err != nil {
+		r.fail("C04/handshake", "handshake", "handshake with a correct peer failed: %v", err)
+		return
+	}
+	env := &vfClientEnv{sim: sim, prop: "C04", c: c, files: map[int]*File{}, tag: tag}
+	byTask := map[int][]vfOp{}
+	var tids []int
+	for _, op := range sc.Ops {
+		if _, ok := byTask[op.T]; !ok {
+			tids = append(tids, op.T)
+		}
+		byTask[op.T] = append(byTask[op.T], op)
+	}
+	sort.Ints(tids)
+	var setup []vfOp
+	for _, t := range tids {
+		setup = append(setup, vfOp{K: "open", P: "/a", H: 100 + t}, vfOp{K: "open", P: fmt.Sprintf("/w%d", t), H: 200 + t, A: int64(os.O_RDWR | os.O_CREATE)})
+	}
+	st := vfSpawnTask(sim, 99, len(setup), func(i int) { env.do(setup[i]) })
+	sim.run(st.finished)
+	if sim.failed() || !st.finished() {
+		if !sim.failed() {
+			r.fail("C04/setup", "setup", "opening files against a correct peer did not finish")
+		}
+		return
+	}
+	var tasks []*vfTask
+	for _, t := range tids {
+		ops := byTask[t]
+		tasks = append(tasks, vfSpawnTask(sim, t, len(ops), func(i int) { env.do(ops[i]) }))
+	}
+	closed, waited := false, false
+	tasks = append(tasks, vfSpawnTask(sim, 90, 1, func(int) { c.Close(); closed = true }))
+	tasks = append(tasks, vfSpawnTask(sim, 91, 1, func(int) { c.Wait(); waited = true }))
+	allDone := func() bool {
+		for _, t := range tasks {
+			if !t.finished() {
+				return false
+			}
+		}
+		return true
+	}
+	sim.run(allDone)
+	if sim.failed() {
+		return
+	}
+	if !allDone() {
+		r.fail("C04/call-hangs", "userclose", "Client.Close was called while calls were in flight; afterwards not every call (or Close: %v, or Wait: %v) returned (steps=%d); blocked: %v", closed, waited, sim.steps, vfBubbleGoroutines())
+		return
+	}
+	sim.run(nil)
+	if left := vfBubbleGoroutines(); len(left) > 0 {
+		r.fail("C04/goroutine-leak", c04LeakSig(left), "after Close returned %d package goroutines are still alive: %v", len(left), left)
+		return
+	}
+	sim.count("probe.closed_by_the_application_with_calls_in_flight")
+	r.res.NonTrivial = true
+}
+
 func c04Exec(r *vfRun) {
 	if r.sc.cfg("quickclose", 0) != 0 {
 		c04QuickClose(r)
+		return
+	}
+	if r.sc.cfg("userclose", 0) != 0 {
+		c04UserClose(r)
 		return
 	}
 	sc, sim := r.sc, r.sim
